@@ -353,6 +353,17 @@ void mythv_idle(int id, int rank) {
   check_owner("idle");
   int w = tl_w, loc, oth;
   (void)rank;
+  /* the library reaches this hook only after reading exit_flag == 0; when every access is a
+     scheduling point the flag may have been set between that read and this call.  Taking the
+     snapshot now would hide that change for good, whereas the real worker simply goes round its
+     loop and sees the flag: so do not park. */
+  { extern int mythv_exit_requested(int rank);
+    if (&mv_audit_pause) mv_audit_pause++;
+    if (&mv_fine_pause) mv_fine_pause++;
+    int ex = mythv_exit_requested(w);
+    if (&mv_fine_pause) mv_fine_pause--;
+    if (&mv_audit_pause) mv_audit_pause--;
+    if (ex) return; }
   S.sigsnap[w] = idle_sig(w, &loc, &oth);
   S.st[w] = ST_IDLE;
   /* work visible somewhere: stay enabled (the next attempt may pick that victim) */
